@@ -12,6 +12,7 @@ import (
 	"io"
 	"runtime"
 	"runtime/debug"
+	"testing/iotest"
 
 	"github.com/absfs/absnfs/internal/verif/wire"
 )
@@ -25,6 +26,13 @@ type c13Case struct {
 	Frag []int  `json:"frag,omitempty"`
 	Max  int    `json:"max,omitempty"`
 	Aux  int    `json:"aux,omitempty"`
+}
+
+func c13CredOf(c *RPCCall) []byte {
+	if c == nil {
+		return nil
+	}
+	return c.Credential.Body
 }
 
 // allocDelta runs f with the collector off and returns bytes allocated.
@@ -183,6 +191,23 @@ func c13Run(c *vCtx, cs c13Case) {
 		}
 		if rd.Len() != 4 {
 			bad("call-consumed-wrong-length", fmt.Sprintf("cred %d verf %d: %d bytes left, want 4", cs.Len, cs.Aux, rd.Len()))
+		}
+		// the same bytes delivered in pieces (a raw-mode connection hands the decoder the socket:
+		// a segment boundary may fall anywhere): every two-piece split, and one byte per Read
+		same := func(c2 *RPCCall) bool {
+			return c2 != nil && c2.Header == call.Header && c2.Credential.Flavor == call.Credential.Flavor && bytes.Equal(c2.Credential.Body, cred) &&
+				c2.Verifier.Flavor == call.Verifier.Flavor && bytes.Equal(c2.Verifier.Body, verf)
+		}
+		for split := 1; split < len(msg); split++ {
+			tail := bytes.NewReader(msg[split:])
+			c2, err := DecodeRPCCall(io.MultiReader(bytes.NewReader(msg[:split]), tail))
+			if err != nil || !same(c2) || tail.Len() != 4-max(0, split-len(e.B)) {
+				bad("call-decoding-depends-on-read-boundaries", fmt.Sprintf("cred %d verf %d: delivered as %d + %d bytes the call decodes to err=%v body=%x (whole: %x), %d bytes left", cs.Len, cs.Aux, split, len(msg)-split, err, c13CredOf(c2), cred, tail.Len()))
+				break
+			}
+		}
+		if c2, err := DecodeRPCCall(iotest.OneByteReader(bytes.NewReader(msg))); err != nil || !same(c2) {
+			bad("call-decoding-depends-on-read-boundaries", fmt.Sprintf("cred %d verf %d: delivered one byte per Read the call decodes to err=%v", cs.Len, cs.Aux, err))
 		}
 		for cut := 0; cut < len(e.B); cut++ {
 			if _, err := DecodeRPCCall(bytes.NewReader(e.B[:cut])); err == nil {
@@ -411,7 +436,7 @@ func init() {
 	vRegister(&vCheck{
 		id: "C13", level: "exploration", flavour: "vtime",
 		shards: func(string) int { return 8 },
-		rule:   "boundary-exhaustive: strings of every content over a 4-byte alphabet {0x00,0x01,'a',0xFF} for lengths 0..4, patterned contents for lengths 5..9 and 8191/8192/8193, every cut point of every encoding, declared lengths {2^16,2^31-1,2^31,2^32-1} over an empty reader with allocation measured (GC off); file handles: 8 values, every opaque length 0..9,63,64,65; RPC call headers: credential x verifier lengths {0..9,399,400,401}^2 x flavors, every cut point; AUTH_SYS bodies: name lengths {0..5,255} x 0..17 gids, every cut point; record marking: every fragmentation (with empty fragments) of records of 0..6 bytes followed by a second record, records of 2^20-1/2^20/2^20+1 bytes in 1/2/1024 fragments, fragment headers declaring up to 2^31-1 bytes; writer->reader identity for sizes 0..9 and up to 2^20 with maxFragment {1,2,3,7,2^20}. Each case is compared with the independent wire kit (RFC encoding, independent reassembly). Non-trivial = every case (each exercises a distinct length/cut/fragmentation).",
+		rule:   "boundary-exhaustive: strings of every content over a 4-byte alphabet {0x00,0x01,'a',0xFF} for lengths 0..4, patterned contents for lengths 5..9 and 8191/8192/8193, every cut point of every encoding, declared lengths {2^16,2^31-1,2^31,2^32-1} over an empty reader with allocation measured (GC off); file handles: 8 values, every opaque length 0..9,63,64,65; RPC call headers: credential x verifier lengths {0..9,399,400,401}^2 x flavors, every cut point, and the same bytes delivered to the decoder in two pieces at every split point and one byte per Read (the result must not depend on read boundaries); AUTH_SYS bodies: name lengths {0..5,255} x 0..17 gids, every cut point; record marking: every fragmentation (with empty fragments) of records of 0..6 bytes followed by a second record, records of 2^20-1/2^20/2^20+1 bytes in 1/2/1024 fragments, fragment headers declaring up to 2^31-1 bytes; writer->reader identity for sizes 0..9 and up to 2^20 with maxFragment {1,2,3,7,2^20}. Each case is compared with the independent wire kit (RFC encoding, independent reassembly). Non-trivial = every case (each exercises a distinct length/cut/fragmentation).",
 		assumptions: []string{"strings containing NUL may be rejected by the decoder (documented restriction); if accepted they must round-trip",
 			"allocation bound per decode call: limit + 64 KiB measured with runtime.MemStats.TotalAlloc, collector off, single goroutine"},
 		run: func(c *vCtx) {
